@@ -927,6 +927,9 @@ class HostConnectionPool(object):
         remaining_callbacks = set(self._connections)
         errors = []
 
+        # connections opened later select this keyspace themselves
+        self._keyspace = keyspace
+
         if not remaining_callbacks:
             callback(self, errors)
             return
@@ -940,7 +943,6 @@ class HostConnectionPool(object):
             if not remaining_callbacks:
                 callback(self, errors)
 
-        self._keyspace = keyspace
         for conn in self._connections:
             conn.set_keyspace_async(keyspace, connection_finished_setting_keyspace)
 
